@@ -484,7 +484,120 @@ HISTORY_CORPUS = [
 
 
 def run_history(ctx: Ctx, case: dict) -> list[str]:
+    if case["stream"] == "host":
+        return run_host(ctx, case)
     return run_near_angles(ctx, case) if case["stream"] == "near" else run_reuse(ctx, case)
+
+
+
+# ------------------------------------------------------------------ several library gates in one host
+
+
+def embed_gate(nq: int, qs: list[int], g: np.ndarray) -> np.ndarray:
+    """the matrix [out, in] on bit_strings(nq) of `g` (on bit_strings(len(qs))) acting on qubits `qs`"""
+    basis = qg.bit_strings(nq)
+    sub = qg.bit_strings(len(qs))
+    full = np.zeros((len(basis), len(basis)), dtype=complex)
+    for ci, b in enumerate(basis):
+        bi = sub.index(tuple(b[q] for q in qs))
+        for ri, o in enumerate(sub):
+            if g[ri, bi] != 0:
+                ob = list(b)
+                for q, v in zip(qs, o):
+                    ob[q] = v
+                full[basis.index(tuple(ob)), ci] += g[ri, bi]
+    return full
+
+
+def run_host(ctx: Ctx, case: dict) -> list[str]:
+    """a host circuit on nq qubits to which heralded two-qubit gates and single-qubit gates of the
+    library are added in a given (not necessarily ascending) order of positions; heralded gates and
+    single-qubit gates compose exactly, so the host's heralded amplitudes on the dual-rail basis must be
+    (product of the per-gate scalars) x (ordered product of the named matrices), with no accepted
+    output outside the qubit subspace"""
+    import lightworks as lw
+
+    nq = case["nq"]
+    host = lw.Circuit(2 * nq)
+    want = np.eye(2 ** nq, dtype=complex)
+    want_sq = Fraction(1)
+    for step in case["gates"]:
+        gcase = step["gate_case"]
+        q = step["q"]
+        try:
+            gate = build_impl(gcase)
+            host.add(gate, 2 * q, group=step["group"])
+        except Exception as e:  # noqa: BLE001
+            return [f"oracle: host: adding {describe(gcase)} on qubit {q} raised {exc_class(e)} (program {case['gates']})"]
+        g = gcase["gate"]
+        if g in FIXED_SINGLE or g in ROT:
+            m = qg.named_single(g, {"theta": theta_of(gcase)} if g in ROT else None)
+            qs = [q]
+        else:
+            m = qg.named_multi(g, gcase.get("target", 1))
+            qs = [q, q + 1]
+            want_sq *= SCALAR_SQ[g]
+        want = embed_gate(nq, qs, m) @ want
+    bits = qg.bit_strings(nq)
+    inputs = [qg.dual_rail(b) for b in bits]
+    try:
+        amps = qg.impl_amplitudes(host, inputs)
+    except Exception as e:  # noqa: BLE001
+        return [f"oracle: host: simulating the host raised {exc_class(e)} (program {case['gates']})"]
+    a = np.zeros((len(bits), len(bits)), dtype=complex)
+    leak = 0.0
+    for ci, ins in enumerate(inputs):
+        for o, amp in amps[tuple(ins)].items():
+            if qg.is_dual_rail(o):
+                a[bits.index(qg.bits_of(o)), ci] = amp
+            else:
+                leak = max(leak, abs(amp))
+    k, resid = qg.fit_scalar(a, want)
+    probs = []
+    prog = [(describe(st["gate_case"]), st["q"], st["group"]) for st in case["gates"]]
+    if resid > TOL:
+        probs.append(f"oracle: host: {nq}-qubit host built by {prog}: amplitudes on the dual-rail basis are not a "
+                     f"common scalar times the ordered product of the named gates (max residual {resid:.3e})")
+    if abs(abs(k) ** 2 - float(want_sq)) > TOL:
+        probs.append(f"oracle: host: {prog}: |scalar|^2 = {abs(k) ** 2:.12f}, expected {want_sq}")
+    if leak > TOL:
+        probs.append(f"oracle: host: {prog}: accepted output outside the qubit subspace has amplitude {leak:.3e}")
+    return probs
+
+
+def gen_host(rng) -> dict:
+    nq = rng.choice([2, 3, 3, 4])
+    n_two = rng.randint(1, 3)
+    gates = []
+    singles = [{"gate": g} for g in FIXED_SINGLE]
+    for _ in range(rng.randint(2, 6)):
+        if n_two and rng.random() < 0.6:
+            n_two -= 1
+            g = rng.choice(["CZ_Heralded", "CNOT_Heralded", "CNOT_Heralded"])
+            gc = {"gate": g} if g == "CZ_Heralded" else {"gate": g, "target": rng.randint(0, 1)}
+            gates.append({"gate_case": gc, "q": rng.randint(0, nq - 2), "group": rng.random() < 0.6})
+        else:
+            gc = dict(rng.choice(singles)) if rng.random() < 0.6 else gen_rotation(rng)
+            gates.append({"gate_case": gc, "q": rng.randint(0, nq - 1), "group": rng.random() < 0.5})
+    # a gate on the highest qubit last: it sits above every ancilla created before
+    gates.append({"gate_case": gen_rotation(rng), "q": nq - 1, "group": rng.random() < 0.5})
+    return {"stream": "host", "nq": nq, "gates": gates}
+
+
+HOST_CORPUS = [
+    # heralded gates placed out of ascending order (0-1, 1-2, 0-1 again), then gates on higher qubits
+    {"stream": "host", "nq": 4, "gates": [
+        {"gate_case": {"gate": "CNOT_Heralded", "target": 1}, "q": 0, "group": True},
+        {"gate_case": {"gate": "CNOT_Heralded", "target": 1}, "q": 1, "group": True},
+        {"gate_case": {"gate": "CNOT_Heralded", "target": 0}, "q": 0, "group": True},
+        {"gate_case": {"gate": "H"}, "q": 2, "group": False},
+        {"gate_case": {"gate": "Ry", "re": "3/5", "im": "4/5"}, "q": 3, "group": False}]},
+    {"stream": "host", "nq": 3, "gates": [
+        {"gate_case": {"gate": "CZ_Heralded"}, "q": 1, "group": False},
+        {"gate_case": {"gate": "CZ_Heralded"}, "q": 0, "group": True},
+        {"gate_case": {"gate": "SX"}, "q": 1, "group": True},
+        {"gate_case": {"gate": "Y"}, "q": 2, "group": False}]},
+]
 
 
 # ------------------------------------------------------------------ entry points
@@ -532,9 +645,11 @@ def run(ctx: Ctx) -> None:
             ctx.count("cases_with_problems")
             report(ctx, case, probs)
 
-    hist = list(HISTORY_CORPUS)
+    hist = list(HISTORY_CORPUS) + list(HOST_CORPUS)
     for _ in range(ctx.n(40, 600)):
         hist.append(gen_near_angles(rng) if rng.random() < 0.4 else gen_reuse(rng))
+    for _ in range(ctx.n(12, 200)):
+        hist.append(gen_host(rng))
     for case in hist:
         if ctx.out_of_time():
             break
@@ -555,7 +670,7 @@ def run(ctx: Ctx) -> None:
 
 def replay(ctx: Ctx, path: str) -> None:
     _data = json.load(open(path))
-    if _data["replay"].get("case", {}).get("stream") in ("near", "reuse"):
+    if _data["replay"].get("case", {}).get("stream") in ("near", "reuse", "host"):
         probs = run_history(ctx, _data["replay"]["case"])
         ctx.case("replay", True, sample=_data["replay"]["case"])
         for p in probs:
